@@ -24,9 +24,14 @@ PROPS["C20"] = {
 }
 
 PROPS["C20"]["level_text"] = (
-    "Theorems: BitsWriter register refinement to bit lists at every alignment (WriteBits/WriteBit append exactly the "
-    "big-endian bits, any sequence), more in Stef/Props/C20.lean; the model is tied to go/pkg by regenerated tables/"
-    "constants and by op-for-op differential runs over all 65 varint classes x 64 alignments.")
+    "Theorems for all inputs: BitsWriter register refinement at every alignment (writeBits_appends, writeBit_appends, "
+    "writeBits_sequence), uvarint_roundtrip / varint_roundtrip / zigzag_roundtrip on all 64-bit values, uvc_roundtrip "
+    "for every value < 2^48 against the regenerated Go write tables with the specification's prefix table as decoder, "
+    "uvc_write_every_alignment, uvc_is_spec_table (whole finite tables), dod_roundtrip and gorilla_roundtrip for every "
+    "sequence from any synchronised state, gorilla_is_spec (register-level encoder = spec bits), bool/string round "
+    "trips, dictstring_sync, dict_ref_always, overread_reported_spec; overread_reported is proved FALSE for the Go "
+    "BitsReader (finding overread-56). Not yet proved: refinement of the BitsReader register to bit lists (the reader "
+    "side is tied by op-for-op correspondence only).")
 
 HOOK_COMMITS = ["dfe47e0", "f85f827"]
 NOT_CLAIMED = {
